@@ -22,8 +22,17 @@ R1c locate paths: on every path of _load_trajectory that reaches a record read
     is used only on paths that established that it exists.  (The arithmetic on
     the table paths is C09-R3.)
 R2  one increment per successful add: on every normal path through `add` the
-    next-index counter is incremented exactly once, and the returned value is
-    a copy of the counter taken before the increment.
+    next-index counter is incremented exactly once (`+= 1`, or stored as the
+    saved entry value plus one), and the returned value is a copy of the counter
+    taken before the increment.  Refused addition: every statement of add that
+    puts the trajectory into the cache (element store, setdefault / update /
+    __setitem__, or a method of the store that does so) is a point where a
+    store without a file refuses - the cache's popitem() raises instead of
+    evicting (R4); the exception classes a handler must name are read off that
+    raise.  On every path from such a point out of add() by that exception the
+    counter has its entry value: not yet advanced at the point, or put back
+    from the saved copy by the first handler that catches the refusal
+    (directly or through a method of the store that is handed the saved copy).
 R3  length: every value __len__ can return is classified - the sum of the
     trajectory dimension over *all* files of the measuring field set (a single
     element is wrong for merged stores), the cache size for an in-memory store,
@@ -45,8 +54,17 @@ R5  cache-key discipline: every store of a loaded trajectory into the cache is
     keyed by the requested index; every return of __getitem__ is the cache
     entry of the requested index on a path that established membership (or a
     `.get()` tested against None - a truth-value test treats an empty
-    trajectory as missing); every load is of the requested index; an unknown
-    index is refused by absence.
+    trajectory as missing); every load is of the requested index (or is
+    followed, on every path, by one); an unknown index is refused by absence.
+    The symbolic paths carry the ordered trace of what changed the heap; from
+    it the cache changes of a path are read (element stores, mapping methods,
+    calls of functions whose closure inserts - keyed by the parameter their own
+    paths insert under).  Out of range is decided on the cache as the load of
+    the requested index left it: on every path to IndexError the last entry
+    put into the cache is that of the requested index and nothing is removed
+    after it (anything loaded afterwards - read-ahead, neighbours - makes a
+    small LRU cache evict the requested entry again).  Likewise a cache entry
+    returned after another key was inserted needs a new membership test.
 R6  iteration yields store[0], store[1], …: every value __iter__ can return is
     a fresh iterator whose position is an index that starts at 0, is read
     through store[index], advances by one and stops at len(store) (iterator
@@ -170,9 +188,20 @@ def run(ctx):
                 and isinstance(s.value, ast.Constant) and s.value.value == 1
             if isinstance(s, ast.Assign):
                 plus_one = norm(s.value) in ('self._next_index + 1', '1 + self._next_index')
+                v = s.value
+                if not plus_one and isinstance(v, ast.BinOp) and isinstance(v.op, ast.Add):
+                    # `self._next_index = saved + 1` with saved = the counter at entry: one past the old value, however
+                    # often this is stored
+                    for x, y in ((v.left, v.right), (v.right, v.left)):
+                        if isinstance(y, ast.Constant) and y.value == 1 and type(y.value) is int and isinstance(x, ast.Name):
+                            d = single_def_value(add.node, x.id)
+                            dn = g.nodes_of(stmt_of(d)) if d is not None and norm(d) == 'self._next_index' else []
+                            if dn and all(dn[0] in dom[i] for i in inc_nodes):
+                                return frozenset({1})
             return frozenset((c + 1 if plus_one else 99) for c in st)
         return st
 
+    dom = g.dominators(edge_ok=lambda a, b, lab: lab != 'e')
     ins, _ = g.forward(frozenset({0}), transfer, lambda a, b: a | b,
                        edge_ok=lambda a, b, lab: lab != 'e')
     counts = ins.get(g.exit, frozenset())
@@ -181,7 +210,6 @@ def run(ctx):
            'every path to a return passes exactly one `_next_index += 1`' if ok else
            f'increment counts over normal paths to return: {sorted(counts)} (99 = not a +1 update)')
     rets = [n for n in g.nodes if n.kind == 'stmt' and isinstance(n.stmt, ast.Return)]
-    dom = g.dominators(edge_ok=lambda a, b, lab: lab != 'e')
     for r in rets:
         v = r.stmt.value
         okr = False
@@ -213,6 +241,9 @@ def run(ctx):
             ctx.ob('C07-R2', add, f'written at {norm(c.args[0]) if c.args else "?"}', ok,
                    'same value as returned' if ok else
                    'the trajectory is written at a different index than the one returned', line=c.lineno)
+
+    # a full in-memory store refuses the addition where the trajectory is put into the cache
+    rule_refusal(ctx, prog, m, add, g, inc_nodes, dom)
 
     # on rejection paths the counter must be back at its pre-add value: the
     # validate-before-mutate dataflow of C10-R1, restricted to the counter
@@ -246,7 +277,235 @@ def run(ctx):
     ctx.assumptions += [
         'netCDF4 unlimited dimensions grow on write and report their current length via len()',
         'cachetools.LRUCache calls popitem() to evict',
+        'cachetools.Cache.__setitem__ evicts (calls popitem) before it stores the new entry: a refused insertion stores nothing',
     ]
+
+
+COUNTER = '_next_index'
+
+
+def _counter_store(s: ast.AST) -> bool:
+    if isinstance(s, (ast.Assign, ast.AugAssign, ast.AnnAssign)):
+        ts = s.targets if isinstance(s, ast.Assign) else [s.target]
+        return any(isinstance(x, ast.Attribute) and x.attr == COUNTER and dotted_name(x.value) == 'self'
+                   and isinstance(x.ctx, ast.Store) for t in ts for x in ast.walk(t))
+    return False
+
+
+def refusal_exceptions(prog, m) -> tuple[set[str], str] | None:
+    """(names under which a handler catches it, display name) of what the cache raises instead of evicting, read off
+    the raise in the cache's popitem(); None when popitem cannot refuse"""
+    import builtins
+    cache = m.classes.get('TrajectoryCache')
+    pop = cache.methods.get('popitem') if cache is not None else None
+    if pop is None:
+        return None
+    for x in walk_no_nested(pop.node):
+        if isinstance(x, ast.Raise) and x.exc is not None and not _in_reraising_handler(x):
+            e = x.exc.func if isinstance(x.exc, ast.Call) else x.exc
+            name = e.attr if isinstance(e, ast.Attribute) else e.id if isinstance(e, ast.Name) else None
+            if name is None:
+                continue
+            names, todo = {name, 'Exception', 'BaseException'}, [name]
+            while todo:
+                n = todo.pop()
+                ci = next((c for q, c in m.classes.items() if q.split('.')[-1] == n), None)
+                if ci is not None:
+                    for b in ci.base_exprs:
+                        b = b.split('.')[-1].split('[')[0]
+                        if b not in names:
+                            names.add(b)
+                            todo.append(b)
+                elif isinstance(getattr(builtins, n, None), type) and issubclass(getattr(builtins, n), BaseException):
+                    names |= {k.__name__ for k in getattr(builtins, n).__mro__ if k is not object}
+            return names, f'{cache.name}.popitem raises {name}'
+    return None
+
+
+def rule_refusal(ctx, prog, m, add, g, inc_nodes, dom):
+    """C07-R2 (refused addition): the statement that puts the trajectory into the cache is where a store without a
+    file refuses the addition (the cache raises instead of evicting, R4).  On every path from such a statement out of
+    add() by that exception the counter has its value from before the call: it was not yet advanced there, or a
+    handler that catches the refusal puts the saved copy back."""
+    ref = refusal_exceptions(prog, m)
+    if ref is None:
+        ctx.undecided('C07-R2', add, 'refused addition', 'the cache has no popitem() that refuses: nothing to decide here (R4)')
+    catches, what = ref
+
+    def in_handler(stmt):
+        return _in_reraising_handler(stmt)
+
+    # where the addition can be refused: insertions into the cache, directly or through a method of the store
+    points: dict[int, str] = {}
+    for n in g.nodes:
+        if n.stmt is None or n.kind in ('finally', 'dispatch', 'join', 'except') or in_handler(n.stmt):
+            continue
+        heads = [n.stmt] if n.kind == 'stmt' else Sym._heads(None, n.stmt)
+        for h in heads:
+            if _is_cache_insert(h):
+                points[n.id] = norm(h)[:60]
+                continue
+            for c in calls_in(h):
+                if _is_cache_insert(c):
+                    points[n.id] = norm(c)[:60]
+                    continue
+                try:
+                    callee = resolve_call(prog, add, c)
+                except Exception:
+                    callee = None
+                if callee is not None and callee.cls is add.cls and callee_cache_inserts(prog, callee):
+                    points[n.id] = norm(c)[:60]
+    ctx.floor('C07-R2/refusal', len(points), 1, 'statements of add that put the trajectory into the cache')
+
+    def saved_copy(name: str) -> bool:
+        d = single_def_value(add.node, name)
+        if d is None or norm(d) != f'self.{COUNTER}':
+            return False
+        dn = g.nodes_of(stmt_of(d))
+        return bool(dn) and all(dn[0] in dom.get(i, set()) for i in inc_nodes)
+
+    def _const(e):
+        return e.value if isinstance(e, ast.Constant) and type(e.value) is int else None
+
+    def counter_after(s: ast.stmt, off: int) -> int:
+        """the counter's distance from its value at entry after the store s, given the distance before (99: unknown)"""
+        if isinstance(s, ast.AugAssign):
+            c = _const(s.value)
+            if c is None or off == 99 or not isinstance(s.op, (ast.Add, ast.Sub)):
+                return 99
+            return off + c if isinstance(s.op, ast.Add) else off - c
+        v = None
+        if isinstance(s, (ast.Assign, ast.AnnAssign)):
+            for t in (s.targets if isinstance(s, ast.Assign) else [s.target]):
+                if isinstance(t, ast.Attribute) and t.attr == COUNTER:
+                    v = s.value
+                elif isinstance(t, (ast.Tuple, ast.List)) and isinstance(s.value, (ast.Tuple, ast.List)) \
+                        and len(t.elts) == len(s.value.elts):
+                    for a, b in zip(t.elts, s.value.elts):
+                        if isinstance(a, ast.Attribute) and a.attr == COUNTER:
+                            v = b
+        if v is None:
+            return 99
+
+        def base(e):
+            """distance of e from the entry value when e is the saved copy / the counter itself"""
+            if isinstance(e, ast.Name) and saved_copy(e.id):
+                return 0
+            if norm(e) == f'self.{COUNTER}':
+                return off
+            return None
+        b = base(v)
+        if b is None and isinstance(v, ast.BinOp) and isinstance(v.op, (ast.Add, ast.Sub)):
+            for x, y in ((v.left, v.right), (v.right, v.left)):
+                if base(x) is not None and _const(y) is not None and (isinstance(v.op, ast.Add) or x is v.left):
+                    b = base(x) if base(x) == 99 else base(x) + (_const(y) if isinstance(v.op, ast.Add) else -_const(y))
+                    break
+        return 99 if b is None else b
+
+    def helper_restore(s: ast.stmt):
+        """True / False when the statement calls a method of the store that stores the counter (from a saved copy
+        passed to it / in another way); None when it does not touch the counter"""
+        # (a helper that advances the counter on the normal path is inlined by the loader or outside this rule's
+        # reach: R2's instance floor on the counter updates of add then fails honestly)
+        if not (isinstance(s, ast.Expr) and isinstance(s.value, ast.Call)):
+            return None
+        c = s.value
+        try:
+            callee = resolve_call(prog, add, c)
+        except Exception:
+            callee = None
+        if callee is None or callee.cls is not add.cls:
+            return None
+        found = None
+        for f in closure(prog, [callee]):
+            for x in walk_no_nested(f.node):
+                if _counter_store(x):
+                    v = getattr(x, 'value', None)
+                    ok = f == callee and isinstance(x, ast.Assign) and isinstance(v, ast.Name) and v.id in callee.params[1:]
+                    if ok:
+                        a = arg_or_kw(c, callee.params[1:].index(v.id), v.id)
+                        ok = isinstance(a, ast.Name) and saved_copy(a.id)
+                    found = ok if found is None else (found and ok)
+        return found
+
+    def handler_of(nid):
+        return g.nodes[nid].stmt if g.nodes[nid].kind == 'except' else None
+
+    def catching(h: ast.ExceptHandler) -> bool:
+        if h.type is None:
+            return True
+        ts = h.type.elts if isinstance(h.type, ast.Tuple) else [h.type]
+        return any(norm(t).split('.')[-1] in catches for t in ts)
+
+    def edge_ok_from(point):
+        def edge_ok(a, b, lab):
+            if lab != 'e':
+                return True
+            na = g.nodes[a]
+            if a == point:
+                return True
+            if na.kind == 'dispatch':
+                hs = [h for h in na.stmt.handlers]
+                first = next((h for h in hs if catching(h)), None)
+                if first is None:
+                    return handler_of(b) is None           # passes on to the outer target
+                return handler_of(b) is first
+            if na.kind == 'stmt' and isinstance(na.stmt, ast.Raise):
+                return in_handler(na.stmt) or 'exc' in na.fin
+            return 'exc' in na.fin
+        return edge_ok
+
+    def transfer(node, st):
+        if node.kind != 'stmt' or node.stmt is None:
+            return st
+        s = node.stmt
+        if _counter_store(s):
+            return frozenset(counter_after(s, off) for off in st)
+        if in_handler(s):
+            hr = helper_restore(s)
+            if hr is not None:
+                return frozenset({0}) if hr else frozenset({99})
+        return st
+
+    for pid, txt in sorted(points.items()):
+        # the state in which the refusal leaves the point: the counter as it was when the statement started
+        ins, _ = g.forward(frozenset({0}), transfer, lambda a, b: a | b,
+                           edge_ok=lambda a, b, lab: lab != 'e')
+        at = ins.get(pid)
+        if at is None:
+            continue
+        eo = edge_ok_from(pid)
+        seen, work, out = {}, [(pid, at, True)], frozenset()
+        # propagate along the exceptional continuation of the point only
+        while work:
+            nid, st, first = work.pop()
+            node = g.nodes[nid]
+            st_out = st if first else transfer(node, st)
+            for b, lab in g.succ[nid]:
+                if first and lab != 'e':
+                    continue
+                if not eo(nid, b, lab):
+                    continue
+                if b == g.raise_exit:
+                    out |= st_out
+                    continue
+                if b == g.exit:
+                    continue
+                new = seen.get(b, frozenset()) | st_out
+                if new != seen.get(b):
+                    seen[b] = new
+                    work.append((b, new, False))
+        ok = out <= {0}
+        incs = sorted({int(g.nodes[i].line) for i in inc_nodes
+                       if g.reaches(i, pid, edge_ok=lambda a, b, lab: lab != 'e')})
+        ctx.ob('C07-R2', add, f'refused insertion `{txt}` leaves the counter untouched', ok,
+               (f'when the cache refuses ({what}) the counter has not been advanced yet or a handler puts the saved '
+                f'copy back') if ok else
+               (f'`{txt}` is where a store without a file refuses the addition ({what}); the counter was already '
+                f'advanced (line {", ".join(map(str, incs)) or "?"}) and no handler on the way out puts the saved copy '
+                f'back: every refused add() uses up an index, so the next trajectory gets an index that is too large '
+                f'(store[len-1] raises IndexError, iteration breaks, holes in the file after save)'),
+               line=g.nodes[pid].line)
 
 
 def _in_reraising_handler(stmt):
@@ -419,6 +678,107 @@ def rule_locate(ctx, prog, m):
                    f'reads record `{_strip(p.rec)[:80]}`: a different record than the one located', line=p.hit.node.lineno)
 
 
+_CACHE_INSERTS = ('__setitem__', 'setdefault', 'update')
+_CACHE_REMOVALS = ('pop', 'popitem', 'clear', '__delitem__')
+
+
+def _is_cache(e: ast.AST) -> bool:
+    """`<object>.<cache attribute>` (any receiver, any heap epoch)"""
+    return isinstance(e, ast.Attribute) and e.attr == CACHE_ATTR
+
+
+def _is_cache_insert(n: ast.AST) -> bool:
+    """a statement / call that puts an entry into the cache mapping (and so may make the cache evict or refuse)"""
+    if isinstance(n, (ast.Assign, ast.AnnAssign, ast.AugAssign)):
+        ts = n.targets if isinstance(n, ast.Assign) else [n.target]
+        return any(isinstance(t, ast.Subscript) and _is_cache(t.value) for t in ts)
+    return isinstance(n, ast.Call) and isinstance(n.func, ast.Attribute) and _is_cache(n.func.value) \
+        and n.func.attr in _CACHE_INSERTS
+
+
+def _insert_keys(n: ast.AST) -> list[ast.expr | None]:
+    if isinstance(n, ast.Call):
+        if n.func.attr == 'update':
+            return list(n.args[0].keys) if n.args and isinstance(n.args[0], ast.Dict) and not n.keywords else [None]
+        return [n.args[0]] if n.args and not isinstance(n.args[0], ast.Starred) else [None]
+    ts = n.targets if isinstance(n, ast.Assign) else [n.target]
+    return [t.slice for t in ts if isinstance(t, ast.Subscript) and _is_cache(t.value)]
+
+
+_INSERT_SUMMARY: dict = {}
+
+
+def callee_cache_inserts(prog, callee) -> list[str | None]:
+    """what a call of `callee` may put into the cache: per insertion in its closure the name of the parameter of
+    `callee` that is the key, or None when the key is something else (decided on the symbolic paths of callee)"""
+    k = (id(prog), callee.file, callee.qualname)
+    if k in _INSERT_SUMMARY:
+        return _INSERT_SUMMARY[k]
+    out: list[str | None] = []
+    for fn in closure(prog, [callee]):
+        if not any(_is_cache_insert(x) for x in walk_no_nested(fn.node)):
+            continue
+        if fn != callee:
+            out.append(None)
+            continue
+        try:
+            hits = Sym(prog, fn).run(_is_cache_insert).hits
+        except SymUndecided:
+            hits = []
+        if not hits:
+            out.append(None)
+        for h in hits:
+            for key in _insert_keys(h.node):
+                kv = h.ev(key) if key is not None else None
+                out.append(kv.id if isinstance(kv, ast.Name) and kv.id in fn.params else None)
+    _INSERT_SUMMARY[k] = out
+    return out
+
+
+def cache_events(prog, st) -> list[tuple[str, ast.expr | None, ast.AST]]:
+    """the cache changes on a symbolic path, in order: ('insert' | 'remove', key over the function's inputs or None
+    when it is not known, node)"""
+    out = []
+    for kind, node, e, fi in st.trace:
+        if kind in ('store', 'del'):
+            if isinstance(e, ast.Subscript) and _is_cache(e.value):
+                out.append(('insert' if kind == 'store' else 'remove', e.slice, node))
+            continue
+        if not isinstance(e, ast.Call):
+            continue
+        if isinstance(e.func, ast.Attribute) and _is_cache(e.func.value):
+            if e.func.attr in _CACHE_INSERTS:
+                out += [('insert', key, node) for key in _insert_keys(e)]
+            elif e.func.attr in _CACHE_REMOVALS:
+                out.append(('remove', e.args[0] if e.args and e.func.attr != 'popitem' else None, node))
+            continue
+        try:
+            callee = resolve_call(prog, fi, node)
+        except Exception:
+            callee = None
+        if callee is None:
+            continue
+        pn = callee.params[1:] if callee.cls is not None and isinstance(node.func, ast.Attribute) else callee.params
+        for par in callee_cache_inserts(prog, callee):
+            a = arg_or_kw(e, pn.index(par), par) if par in pn else None
+            out.append(('insert', a, node))
+    return out
+
+
+def _missing_key_is_index_error(stmt: ast.stmt) -> bool:
+    """stmt stands in the body of a `try` whose handler for a missing key (KeyError / LookupError) raises IndexError"""
+    for a in ancestors(stmt):
+        if isinstance(a, (ast.FunctionDef, ast.AsyncFunctionDef, ast.Lambda)):
+            return False
+        if isinstance(a, ast.Try) and any(x is stmt for b in a.body for x in ast.walk(b)):
+            for h in a.handlers:
+                ts = [] if h.type is None else (h.type.elts if isinstance(h.type, ast.Tuple) else [h.type])
+                if any(norm(t).split('.')[-1] in ('KeyError', 'LookupError') for t in ts):
+                    last = h.body[-1] if h.body else None
+                    return isinstance(last, ast.Raise) and last.exc is not None and 'IndexError' in norm(last.exc)
+    return False
+
+
 def rule_getitem(ctx, prog, m):
     """C07-R5: __getitem__ answers from the cache entry of the requested index, loads that index on a miss and
     reports an index that is still unknown as IndexError - decided per return / raise path."""
@@ -438,6 +798,14 @@ def rule_getitem(ctx, prog, m):
             if not _is_name(v.slice, key):
                 bad.append((stmt, f'returns the cache entry of `{_strip(v.slice)}`, not of the requested `{key}`'))
             elif st.fact(f'{key} in {norm(v.value)}') is not True:
+                if _missing_key_is_index_error(stmt):
+                    continue        # the element read is the membership test: its KeyError is turned into IndexError
+                evs = [ev for ev in cache_events(prog, st) if ev[0] == 'insert']
+                if evs and evs[-1][1] is not None and not _is_name(evs[-1][1], key):
+                    bad.append((evs[-1][2], f'`{norm(evs[-1][2])[:60]}` puts the entry of `{_strip(evs[-1][1])}` into the '
+                                            f'cache and `{_strip(v)}` is read afterwards without a new membership test: a small '
+                                            f'cache has evicted the requested entry by then (KeyError for a valid index)'))
+                    continue
                 ctx.undecided('C07-R5', gi, _strip(v), 'cache entry returned on a path that did not establish membership')
         elif isinstance(v, ast.Call) and isinstance(v.func, ast.Attribute) and v.func.attr == 'get' \
                 and recv_attr(v.func.value, CACHE_ATTR) and v.args:
@@ -456,7 +824,12 @@ def rule_getitem(ctx, prog, m):
     for h in loads_:
         a = h.ev(h.node.args[0]) if h.node.args else None
         if a is None or not _is_name(a, key):
-            bad.append((h.node, f'loads index `{_strip(a)}`, not the requested `{key}`'))
+            # harmless when the requested index is (re)loaded afterwards: decided per path below
+            later = [p for p in list(rets) + [(r[0], r[1], r[2]) for r in sym.raises]
+                     if any(ev[1] is h.node for ev in p[0].trace)]
+            if not later or not all(any(kk == 'insert' and k is not None and _is_name(k, key)
+                                        for kk, k, _ in cache_events(prog, p[0])) for p in later):
+                bad.append((h.node, f'loads index `{_strip(a)}`, not the requested `{key}`'))
     ctx.ob('C07-R5', gi, 'cache consulted, loaded and returned under one key', not bad,
            f'{len(rets)} return path(s) return cache[{key}] after membership was established; {len(loads_)} load path(s) '
            f'load `{key}`' if not bad else bad[0][1], line=(bad[0][0].lineno if bad else gi.node.lineno))
@@ -465,6 +838,34 @@ def rule_getitem(ctx, prog, m):
            'raise IndexError present' if oor else 'an index beyond the end is not reported as out of range',
            nontrivial=False)
     for st, exc, stmt, _ in oor:
+        # the absence that decides the refusal is the absence left by loading the requested index: whatever else is
+        # put into the cache after that load can make the (bounded, least-recently-used) cache evict the entry again
+        evs = cache_events(prog, st)
+        ins = [i for i, (kk, k, _) in enumerate(evs) if kk == 'insert']
+        if ins:
+            kk, k, node = evs[ins[-1]]
+            own = [i for i in ins if evs[i][1] is not None and _is_name(evs[i][1], key)]
+            if k is None:
+                ctx.undecided('C07-R5', gi, norm(node)[:60], 'cannot tell under which key this puts an entry into the '
+                              'cache before the index is reported as out of range')
+            if not _is_name(k, key):
+                ctx.ob('C07-R5', gi, 'out-of-range decided on the cache as the load of the requested index left it', False,
+                       (f'after `{key}` was loaded, `{norm(node)[:60]}` puts the entry of `{_strip(k)}` into the cache '
+                        f'before `{key}` is looked up again: a cache that holds only a few trajectories evicts the '
+                        f'requested entry to make room, and a valid index is then reported as IndexError') if own else
+                       (f'the last entry put into the cache before IndexError is decided is that of `{_strip(k)}` '
+                        f'(`{norm(node)[:60]}`), not of the requested `{key}`: whatever was loaded for `{key}` before can '
+                        f'have been evicted by it, and a valid index is reported as out of range'), line=node.lineno)
+            else:
+                ctx.ob('C07-R5', gi, 'out-of-range decided on the cache as the load of the requested index left it', True,
+                       f'`{norm(node)[:60]}` (key `{key}`) is the last thing put into the cache before the test',
+                       line=node.lineno)
+            gone = [evs[i] for i in range(ins[-1] + 1, len(evs)) if evs[i][0] == 'remove'
+                    and (evs[i][1] is None or _is_name(evs[i][1], key))]
+            if gone:
+                ctx.ob('C07-R5', gi, 'out-of-range decided on the cache as the load of the requested index left it', False,
+                       f'`{norm(gone[0][2])[:60]}` removes entries from the cache between the load of `{key}` and the '
+                       f'test that reports it as out of range', line=gone[0][2].lineno)
         # the refusal must be decided by absence, not by the truth value of the trajectory
         falsy = [k for k, p, e in st.facts if not p and isinstance(e, ast.Call) and isinstance(e.func, ast.Attribute)
                  and e.func.attr == 'get' and recv_attr(e.func.value, CACHE_ATTR)]
@@ -1158,16 +1559,19 @@ def _noneness(e: ast.expr):
 
 
 class SymState:
-    __slots__ = ('env', 'facts', 'epoch', 'clob')
+    __slots__ = ('env', 'facts', 'epoch', 'clob', 'trace')
 
-    def __init__(self, env=None, facts=None, epoch=None, clob=None):
+    def __init__(self, env=None, facts=None, epoch=None, clob=None, trace=None):
         self.env: dict[str, ast.expr] = dict(env or {})
         self.facts: list[tuple[str, bool, ast.expr]] = list(facts or [])
         self.epoch: dict[str, int] = dict(epoch or {})
         self.clob: set[str] = set(clob or ())
+        # what may have changed heap state on this path, in order: (kind, node, the node over the function's inputs,
+        # function the node stands in); kind 'call' (impure call), 'store' (element store), 'del' (element removal)
+        self.trace: list[tuple[str, ast.AST, ast.AST, object]] = list(trace or [])
 
     def fork(self) -> 'SymState':
-        return SymState(self.env, self.facts, self.epoch, self.clob)
+        return SymState(self.env, self.facts, self.epoch, self.clob, self.trace)
 
     def fact(self, text: str):
         """polarity of the canonical fact `text` on this path, or None"""
@@ -1426,6 +1830,7 @@ class Sym:
             # class or a module (`Cls.open(...)`, `os.rename(...)`) does not alter what local values denote
             recv = (roots_of([c.func.value]) if isinstance(c.func, ast.Attribute) else set()) & self._locals
             args = (roots_of(list(c.args) + [k.value for k in c.keywords]) & self._locals) - recv
+            st.trace.append(('call', c, self.ev(c, st.fork()), self.fi))
             self.clobber(st, recv, c, env=True)
             self.clobber(st, args, c, env=False)
             if isinstance(c.func, ast.Attribute):
@@ -1505,7 +1910,7 @@ class Sym:
                     return None
                 bind[p] = copy.deepcopy(defaults[p])
         sub = Sym(self.prog, callee, self.depth + 1, parent=self, cap=64)
-        init = SymState(bind, st.facts, st.epoch, st.clob)
+        init = SymState(bind, st.facts, st.epoch, st.clob, st.trace)
         if same_recv and sub.recv is not None:
             for k, v in st.env.items():
                 if k.startswith(self.recv + '.'):
@@ -1518,7 +1923,7 @@ class Sym:
             return None
         out = []
         for rst, rv, _ in sub.returns:
-            new = SymState(st.env, rst.facts, rst.epoch, rst.clob)
+            new = SymState(st.env, rst.facts, rst.epoch, rst.clob, rst.trace)
             gone = {_base_id(r) for r in rst.clob} - {_base_id(r) for r in st.clob}
             # the callee's names are its own: what it changed through a parameter is, for the caller, the heap
             # reachable from the variables of the argument bound to it; what it changed through one of its locals
@@ -1626,6 +2031,7 @@ class Sym:
                 attr = t.attr
                 self.clobber_text(st, lambda x: isinstance(x, ast.Attribute) and x.attr == attr)
         elif isinstance(t, ast.Subscript):
+            st.trace.append(('store', t, self.ev(t, st.fork()), self.fi))
             base = norm(self.ev(t.value, st.fork()))
             self.clobber_text(st, lambda x: isinstance(x, (ast.Attribute, ast.Subscript, ast.Name)) and norm(x) == base)
             r = chain_root(t)
@@ -1633,6 +2039,12 @@ class Sym:
                 st.env[r.id] = self._fresh(r.id, t)
         elif isinstance(t, ast.Starred):
             self.bind(t.value, self._fresh('starred', t), st)
+
+    def _unbind(self, t: ast.expr, s: ast.stmt, st: SymState):
+        """`del <attribute or element>`: forgotten like a store, recorded as a removal"""
+        n = len(st.trace)
+        self.bind(t, self._fresh('del', s), st)
+        st.trace[n:] = [('del',) + ev[1:] for ev in st.trace[n:]]
 
     def _assigned(self, stmts) -> set[str]:
         out = set()
@@ -1767,7 +2179,7 @@ class Sym:
                 if isinstance(t, ast.Name):
                     st.env[t.id] = self._fresh(t.id, s)
                 else:
-                    self.bind(t, self._fresh('del', s), st)
+                    self._unbind(t, s, st)
             return [st]
         if isinstance(s, (ast.Break, ast.Continue)):
             return []
@@ -1798,7 +2210,7 @@ class Sym:
         elif isinstance(s, ast.Delete):
             for t in s.targets:
                 if not isinstance(t, ast.Name):
-                    self.bind(t, self._fresh('del', s), st)
+                    self._unbind(t, s, st)
 
 
 def _first_ifexp(e: ast.AST, path=()):
